@@ -180,6 +180,16 @@ def handle06 (args : List String) : String :=
       | some none => s!"fail\t{w}"
       | some (some t) => s!"{t.toWire}\t{w}"
     | none => "bad-op\tn/a"
+  -- the same text parsed by a Parser object that parsed another text before: the tree and its ranges do
+  -- not depend on that history (the model has no history: it answers as for `tree`)
+  | ["treeafter", s, _, h, w] =>
+    match synOf s with
+    | some syn =>
+      match parseText syn (parseHex h) with
+      | none => s!"skip\t{w}"
+      | some none => s!"fail\t{w}"
+      | some (some t) => s!"{t.toWire}\t{w}"
+    | none => "bad-op\tn/a"
   | ["findmin", s, h, lo, hi] =>
     match synOf s with
     | some syn =>
